@@ -7,7 +7,48 @@
 // offline with `go list` run in <repo>).  For a FIXED list of functions on the merge / compaction / flush /
 // table-writer / WAL-replay path it emits one row per call site whose callee's last result has type `error` (the
 // wrappers fmt.Errorf / errors.Join / errors.New are not rows, they carry their arguments), in source order, with what
-// happens to that error value on EVERY path of the enclosing function (or function literal):
+// happens to that error value on EVERY path of the enclosing function (or function literal).
+//
+// RENAME-STABLE SPELLING (canon.go, shared verbatim with tools/orderfacts and tools/resfacts).  Nothing in a row is source
+// text.  `callee` is a go/types identity: `pkg.Func` with the module-relative package path ("recordio/proto.NewWriter",
+// "path/filepath.Walk" — import aliases do not matter); a method by the TYPE of the root variable of the receiver chain
+// plus the field path ("sstables.SSTableStreamWriter.indexWriter.Close" for `writer.indexWriter.Close`,
+// "memstore.MemStoreI.FlushWithTombstones" for `memStoreToFlush.FlushWithTombstones`, "sstables.SuperSSTableReader.
+// readers[].Get"); a call of a func-typed parameter "‹func([]byte) error›"; a literal "func literal".  `method` is the
+// last name.  Sentinels are `pkg.Var` by the package's own name path; wrappers and terminators are recognised by package
+// PATH + name.  So renaming a local / parameter / receiver / import alias, re-wording a message, adding log.Printf or any
+// other call that returns no error, reordering independent statements that are not rows: no change of the table.
+//
+// THE LISTED FUNCTIONS ARE THE ANCHORS of the specification (exported entry points, plus the unexported functions the
+// theorems name: executeFlush, flushMemstore, replayFile, writeFileHeader …).  They are looked up by package, receiver type
+// and name in any file of their package (moving one to another file is harmless; `file` in the table says where it was
+// found).  RENAMING AN EXPORTED ANCHOR is reported: "listed function(s) not found".  A PRIVATE anchor whose name is gone is
+// found by its role — the one unexported function with the same receiver and the signature recorded in canon.go
+// (`privateSigs`, `resolveFunc`) that the specification does not know under its own name; it keeps the specification's name
+// in the table and a note is printed on stderr; if there is no such function, or more than one, it is "not found".
+// A call of an anchor from another listed function stays a row.
+//
+// PRIVATE HELPERS ARE INLINED.  A call of an UNEXPORTED function / concrete method of the module whose declaration is known
+// and which is not an anchor has no row of its own: the rows of the helper stand where the call stands (recursively, at most
+// three levels, never into a function that is being analysed already — such a call stays a row), whether or not the helper
+// returns an error, composed with what the CALLER does with the helper's result:
+//
+//	helper row returned / checkedThenReturn  →  the caller's disposition of the call (checkedThenReturn is kept if the caller
+//	                                            merely returns it); sentinels = union
+//	helper row translated                    →  translated, or the caller's disposition if that is worse; sentinels = union
+//	any other helper row                     →  as it is (the value never reached the caller)
+//
+// inLoop / inDefer / inBranch = those of the call site OR those of the inner row.  So `pq.NewPriorityQueue` shows the
+// input's `Next()` of the unexported `fillNext`, called in the loop of the unexported `init`, as
+// (pq.Element.iterator.Next, translated [pq.Done], inLoop) whatever the two helpers are called; extracting the body of an
+// `if err != nil { … }` branch (or any other block) into a private function leaves the table as it is.
+// Errors a helper MAKES ITSELF (`return fmt.Errorf("checksum mismatch")`, `return ErrClosed`, `err = &E{…}` into a named
+// result: not the value of a call, not (a wrap of) a parameter) have no call site; what the caller does with them is shown
+// by the pseudo row `error value made by an inlined private helper` with the caller's disposition of the call — ONLY when
+// that is not returned / checkedThenReturn (`_ = validate(k)`, `defer w.finish()`), so it is visible exactly when it is a
+// finding.
+// A function of the module that hands an error PARAMETER back on every return (`func wrapRead(err error) error { return
+// fmt.Errorf("read: %w", err) }`, also with a log line before it) carries the value like fmt.Errorf does.
 //
 //	returned           the value (possibly wrapped / joined) reaches a return statement, a named result at function exit,
 //	                   or a named result of the deferring function from inside a deferred literal, without being tested
@@ -27,22 +68,19 @@
 // The worst disposition over all paths is the row's disposition (unknown > overwritten > swallowed > translated >
 // checkedThenReturn > returned).  The analysis is a forward walk over the structured control flow of the function with
 // the set of variables holding the value and the set of kinds the value may still have ({nil, error, sentinel S…}),
-// refined by `!= nil`, `== nil`, errors.Is, `== S`, !, &&, ||.
+// refined by `!= nil`, `== nil`, errors.Is, `== S`, !, &&, ||, and by a call of a module function whose body is a single
+// `return <expr>` (`func isEOF(err error) bool { return errors.Is(err, io.EOF) }`), read as that expression with the
+// arguments in place of the parameters (at most two levels, as canon.cond does).
 //
-// A listed function that is missing (or a tree that does not type-check) is an error (exit 1) unless --allow-missing is
-// given (missing: `found := false`, no rows; the Lean obligations about it then fail).
+// A listed function (anchor) that is missing (or a tree that does not type-check) is an error (exit 1) unless
+// --allow-missing is given (missing: `found := false`, no rows; the Lean obligations about it then fail).
 // --root <dir>: overlay — a source file is taken from <dir>/<relative path> if it exists there, else from <repo>.
 // The output is deterministic and rewritten only when its content changes.
 package main
 
 import (
-	"bytes"
 	"fmt"
 	"go/ast"
-	"go/build"
-	"go/importer"
-	"go/parser"
-	"go/printer"
 	"go/token"
 	"go/types"
 	"os"
@@ -69,7 +107,7 @@ var targets = []target{
 		"SSTableSimpleWriter.WriteSkipListMap"}},
 	{"sstables/super_sstable_reader.go", "sstables", false, []string{"SuperSSTableReader.Contains", "SuperSSTableReader.Get", "SuperSSTableReader.Scan",
 		"SuperSSTableReader.ScanStartingAt", "SuperSSTableReader.ScanRange", "SuperSSTableReader.Close"}},
-	{"pq/priority_queue.go", "pq", false, []string{"PriorityQueue.init", "PriorityQueue.Next", "PriorityQueue.fillNext", "NewPriorityQueue"}},
+	{"pq/priority_queue.go", "pq", false, []string{"PriorityQueue.Next", "NewPriorityQueue"}},
 	{"memstore/memstore.go", "memstore", false, []string{"MemStore.Flush", "MemStore.FlushWithTombstones", "flushMemstore"}},
 	{"simpledb/flush.go", "simpledb", false, []string{"flushMemstoreContinuously", "executeFlush", "DB.rotateWalAndFlushMemstore"}},
 	{"simpledb/compaction.go", "simpledb", false, []string{"backgroundCompaction", "executeCompaction", "saveCompactionMetadata"}},
@@ -80,102 +118,14 @@ var targets = []target{
 	{"wal/replayer.go", "wal", false, []string{"Replayer.Replay", "Replayer.replayFile"}},
 }
 
-// calls that build an error from their arguments: not rows; an argument that holds the tracked value is carried
+// calls that build an error from their arguments: not rows; an argument that holds the tracked value is carried.
+// Decided by the go/types identity of the callee (package PATH + name), never by the printed text: an import alias or a
+// local package that happens to be called `fmt` changes nothing.
 var wrappers = map[string]bool{"fmt.Errorf": true, "errors.Join": true, "errors.New": true}
 
-// calls after which the path ends with the process (or goroutine) stopping
+// calls after which the path ends with the process (or goroutine) stopping (package path + name; plus the builtin panic)
 var terminators = map[string]bool{"log.Panicf": true, "log.Panic": true, "log.Panicln": true, "log.Fatalf": true, "log.Fatal": true,
 	"log.Fatalln": true, "os.Exit": true}
-
-// ---------------------------------------------------------------------------------------------------------
-// loading + type checking
-
-var fset = token.NewFileSet()
-
-type loader struct {
-	repo, root, mod string
-	src             types.ImporterFrom
-	pkgs            map[string]*types.Package
-	infos           map[string]*types.Info
-	files           map[string]map[string]*ast.File // import path -> relative file -> AST
-	problems        []string
-}
-
-func (l *loader) Import(path string) (*types.Package, error) { return l.ImportFrom(path, l.repo, 0) }
-
-func (l *loader) ImportFrom(path, dir string, mode types.ImportMode) (*types.Package, error) {
-	if p, ok := l.pkgs[path]; ok {
-		return p, nil
-	}
-	if path == l.mod || strings.HasPrefix(path, l.mod+"/") {
-		return l.check(path), nil
-	}
-	p, err := l.src.ImportFrom(path, l.repo, 0)
-	if err != nil || p == nil {
-		l.problems = append(l.problems, fmt.Sprintf("import %s: %v", path, err))
-		p = types.NewPackage(path, filepath.Base(path))
-		p.MarkComplete()
-	}
-	l.pkgs[path] = p
-	return p, nil
-}
-
-func (l *loader) pick(rel string) string {
-	if l.root != "" {
-		if _, err := os.Stat(filepath.Join(l.root, rel)); err == nil {
-			return filepath.Join(l.root, rel)
-		}
-	}
-	return filepath.Join(l.repo, rel)
-}
-
-func (l *loader) check(path string) *types.Package {
-	rel := strings.TrimPrefix(strings.TrimPrefix(path, l.mod), "/")
-	dir := filepath.Join(l.repo, rel)
-	names := map[string]bool{}
-	dirs := []string{dir}
-	if l.root != "" {
-		dirs = append(dirs, filepath.Join(l.root, rel))
-	}
-	for _, d := range dirs {
-		ents, _ := os.ReadDir(d)
-		for _, e := range ents {
-			n := e.Name()
-			if e.IsDir() || !strings.HasSuffix(n, ".go") || strings.HasSuffix(n, "_test.go") {
-				continue
-			}
-			if ok, err := build.Default.MatchFile(d, n); err == nil && ok {
-				names[n] = true
-			}
-		}
-	}
-	var sorted []string
-	for n := range names {
-		sorted = append(sorted, n)
-	}
-	sort.Strings(sorted)
-	var files []*ast.File
-	byRel := map[string]*ast.File{}
-	for _, n := range sorted {
-		f, err := parser.ParseFile(fset, l.pick(filepath.Join(rel, n)), nil, 0)
-		if err != nil {
-			l.problems = append(l.problems, err.Error())
-			continue
-		}
-		files = append(files, f)
-		byRel[filepath.Join(rel, n)] = f
-	}
-	info := &types.Info{Types: map[ast.Expr]types.TypeAndValue{}, Defs: map[*ast.Ident]types.Object{}, Uses: map[*ast.Ident]types.Object{}}
-	conf := types.Config{Importer: l, Error: func(err error) { l.problems = append(l.problems, err.Error()) }}
-	p, _ := conf.Check(path, fset, files, info)
-	if p == nil {
-		p = types.NewPackage(path, filepath.Base(path))
-	}
-	l.pkgs[path] = p
-	l.infos[path] = info
-	l.files[path] = byRel
-	return p
-}
 
 // ---------------------------------------------------------------------------------------------------------
 // rows
@@ -188,6 +138,7 @@ type row struct {
 	sentinels          []string
 	inLoop, inDefer    bool
 	inBranch           bool
+	pseudo             bool // "an error made by an inlined helper": shown only when the caller does not report it
 }
 
 type fnOut struct {
@@ -196,99 +147,270 @@ type fnOut struct {
 	rows       []row
 }
 
-func exprString(n ast.Node) string {
-	var b bytes.Buffer
-	_ = printer.Fprint(&b, fset, n)
-	return strings.Join(strings.Fields(b.String()), " ")
-}
-
-// calleeName: printed function expression; a call in receiver position is replaced by "(<its callee>)", type arguments
-// are dropped, a function literal is "func literal"
-func calleeName(e ast.Expr) string {
-	switch x := e.(type) {
-	case *ast.SelectorExpr:
-		if c, ok := x.X.(*ast.CallExpr); ok {
-			return "(" + calleeName(c.Fun) + ")." + x.Sel.Name
-		}
-		return exprString(x)
-	case *ast.ParenExpr:
-		return calleeName(x.X)
-	case *ast.IndexExpr:
-		return calleeName(x.X)
-	case *ast.IndexListExpr:
-		return calleeName(x.X)
-	case *ast.FuncLit:
-		return "func literal"
-	default:
-		return exprString(e)
-	}
-}
-
-func methodName(e ast.Expr) string {
-	switch x := e.(type) {
-	case *ast.SelectorExpr:
-		return x.Sel.Name
-	case *ast.ParenExpr:
-		return methodName(x.X)
-	case *ast.IndexExpr:
-		return methodName(x.X)
-	case *ast.IndexListExpr:
-		return methodName(x.X)
-	case *ast.Ident:
-		return x.Name
-	}
-	return ""
-}
+const ownErrorCallee = "error value made by an inlined private helper"
+const namedResultAssignment = "assignment to the named result"
 
 type analyzer struct {
-	info    *types.Info
-	parents map[ast.Node]ast.Node
-	fd      *ast.FuncDecl
+	l     *loader
+	info  *types.Info
+	fd    *ast.FuncDecl
+	cn    *canon        // rename-stable identities inside fd (canon.go)
+	depth int           // 0: a listed function; k: a private helper inlined k levels below one
+	stack []*types.Func // the functions being analysed (cycle guard of the inlining)
+}
+
+func (l *loader) analyzer(info *types.Info, fd *ast.FuncDecl, depth int, stack []*types.Func) *analyzer {
+	return &analyzer{l: l, info: info, fd: fd, cn: newCanon(l.mod, info, fd.Body, l.lookup), depth: depth, stack: stack}
 }
 
 var errorType = types.Universe.Lookup("error").Type()
 
-// qualified name of the function / package-level object an expression denotes ("fmt.Errorf", "io.EOF"), "" if none
-func (a *analyzer) qualified(e ast.Expr) (string, types.Object) {
-	var id *ast.Ident
-	switch x := e.(type) {
-	case *ast.Ident:
-		id = x
-	case *ast.SelectorExpr:
-		id = x.Sel
-	case *ast.ParenExpr:
-		return a.qualified(x.X)
-	case *ast.IndexExpr:
-		return a.qualified(x.X)
-	case *ast.IndexListExpr:
-		return a.qualified(x.X)
-	default:
-		return "", nil
-	}
-	obj := a.info.Uses[id]
-	if obj == nil {
-		return "", nil
-	}
-	if obj.Pkg() == nil {
-		return obj.Name(), obj // builtin / universe
-	}
-	if obj.Parent() != obj.Pkg().Scope() {
-		return "", obj // local, field or method
-	}
-	return obj.Pkg().Name() + "." + obj.Name(), obj
+// identities that need nothing but a types.Info (the callee of a call, a sentinel's canonical name)
+func (l *loader) lite(info *types.Info) *canon {
+	return &canon{mod: l.mod, info: info, lookup: l.lookup}
 }
 
-func (a *analyzer) isWrapper(c *ast.CallExpr) bool {
-	q, _ := a.qualified(c.Fun)
-	return wrappers[q]
+// "<package path>.<name>" of the package-level function a call invokes; "panic" for the builtin; "" otherwise
+func (l *loader) pkgFunc(info *types.Info, c *ast.CallExpr) string {
+	if id, ok := ast.Unparen(c.Fun).(*ast.Ident); ok {
+		if b, ok := info.Uses[id].(*types.Builtin); ok {
+			return b.Name()
+		}
+	}
+	f := l.lite(info).calledFunc(c)
+	if f == nil || f.Pkg() == nil {
+		return ""
+	}
+	if sig, ok := f.Type().(*types.Signature); !ok || sig.Recv() != nil {
+		return ""
+	}
+	return f.Pkg().Path() + "." + f.Name()
 }
+
+func (l *loader) isWrapperIn(info *types.Info, c *ast.CallExpr) bool {
+	return wrappers[l.pkgFunc(info, c)]
+}
+
+func (a *analyzer) isWrapper(c *ast.CallExpr) bool { return a.l.isWrapperIn(a.info, c) }
 
 func (a *analyzer) isTerminator(c *ast.CallExpr) bool {
-	q, obj := a.qualified(c.Fun)
-	if q == "panic" && obj != nil && obj.Pkg() == nil {
-		return true
+	q := a.l.pkgFunc(a.info, c)
+	return q == "panic" || terminators[q]
+}
+
+// The arguments of a call whose error value the call's result carries: every argument of a wrapper; for a function of
+// the module that passes an error parameter through (every `return` of it hands back the parameter, possibly wrapped:
+// `func wrapRead(err error) error { return fmt.Errorf("read: %w", err) }`) the arguments in those positions.
+func (l *loader) carrierArgs(info *types.Info, c *ast.CallExpr) []ast.Expr {
+	if l.isWrapperIn(info, c) {
+		return c.Args
 	}
-	return terminators[q]
+	f := l.lite(info).calledFunc(c)
+	if f == nil || !l.inModule(f.Pkg()) {
+		return nil
+	}
+	h := l.lookup(f)
+	if h == nil {
+		return nil
+	}
+	var out []ast.Expr
+	for _, i := range l.passThrough(h) {
+		if i < len(c.Args) {
+			out = append(out, c.Args[i])
+		}
+	}
+	return out
+}
+
+// the parameters of a declared function, flattened, as objects (nil for unnamed / blank ones)
+func paramObjs(h *helperDecl) []types.Object {
+	var out []types.Object
+	if h.fd.Type.Params == nil {
+		return out
+	}
+	for _, f := range h.fd.Type.Params.List {
+		if len(f.Names) == 0 {
+			out = append(out, nil)
+		}
+		for _, n := range f.Names {
+			out = append(out, h.info.Defs[n]) // nil for `_`
+		}
+	}
+	return out
+}
+
+func isVariadic(fd *ast.FuncDecl) bool {
+	if fd.Type.Params == nil || len(fd.Type.Params.List) == 0 {
+		return false
+	}
+	_, ok := fd.Type.Params.List[len(fd.Type.Params.List)-1].Type.(*ast.Ellipsis)
+	return ok
+}
+
+// indexes of the error-typed parameters that EVERY return statement of the function hands back (possibly wrapped); the
+// parameter is never assigned and its address is never taken; the last result is an error
+func (l *loader) passThrough(h *helperDecl) []int {
+	if p, ok := l.pass[h.fd]; ok {
+		return p
+	}
+	l.pass[h.fd] = nil // cycle guard
+	ft := h.fd.Type
+	if ft.Results == nil || len(ft.Results.List) == 0 || isVariadic(h.fd) {
+		return nil
+	}
+	if tv, ok := h.info.Types[ft.Results.List[len(ft.Results.List)-1].Type]; !ok || tv.Type == nil || !types.Identical(tv.Type, errorType) {
+		return nil
+	}
+	var rets []*ast.ReturnStmt
+	touched := map[types.Object]bool{}
+	touch := func(e ast.Expr) {
+		if id, ok := ast.Unparen(e).(*ast.Ident); ok {
+			if o := h.info.Uses[id]; o != nil {
+				touched[o] = true
+			}
+		}
+	}
+	var walk func(n ast.Node, inLit bool)
+	walk = func(n ast.Node, inLit bool) {
+		ast.Inspect(n, func(m ast.Node) bool {
+			switch x := m.(type) {
+			case *ast.FuncLit:
+				if m != n {
+					walk(x.Body, true)
+					return false
+				}
+			case *ast.ReturnStmt:
+				if !inLit {
+					rets = append(rets, x)
+				}
+			case *ast.AssignStmt:
+				for _, lhs := range x.Lhs {
+					touch(lhs)
+				}
+			case *ast.UnaryExpr:
+				if x.Op == token.AND {
+					touch(x.X)
+				}
+			case *ast.RangeStmt:
+				touch(x.Key)
+				touch(x.Value)
+			}
+			return true
+		})
+	}
+	walk(h.fd.Body, false)
+	var out []int
+	for i, p := range paramObjs(h) {
+		if p == nil || touched[p] || !types.Identical(p.Type(), errorType) || len(rets) == 0 {
+			continue
+		}
+		all := true
+		for _, r := range rets {
+			if len(r.Results) == 0 || !l.carriesIn(h.info, r.Results[len(r.Results)-1], []types.Object{p}, 0) {
+				all = false
+			}
+		}
+		if all {
+			out = append(out, i)
+		}
+	}
+	l.pass[h.fd] = out
+	return out
+}
+
+// a call of a function of the module that can only return a nil error: every `return` of it has the literal nil as its last
+// result and it has no named results (`func ignore(err error) error { log.Print(err); return nil }`) — `return ignore(err)`
+// is `return nil`
+func (l *loader) alwaysNil(info *types.Info, e ast.Expr) bool {
+	c, ok := ast.Unparen(e).(*ast.CallExpr)
+	if !ok {
+		return false
+	}
+	f := l.lite(info).calledFunc(c)
+	if f == nil || !l.inModule(f.Pkg()) {
+		return false
+	}
+	h := l.lookup(f)
+	if h == nil || h.fd.Type.Results == nil {
+		return false
+	}
+	for _, r := range h.fd.Type.Results.List {
+		if len(r.Names) > 0 {
+			return false
+		}
+	}
+	n, all := 0, true
+	var walk func(b ast.Node)
+	walk = func(b ast.Node) {
+		ast.Inspect(b, func(m ast.Node) bool {
+			switch x := m.(type) {
+			case *ast.FuncLit:
+				return false
+			case *ast.ReturnStmt:
+				n++
+				if len(x.Results) == 0 || !isNil(x.Results[len(x.Results)-1]) {
+					all = false
+				}
+			}
+			return true
+		})
+	}
+	walk(h.fd.Body)
+	return n > 0 && all
+}
+
+// expression whose value is (a wrap of) a holder: a holder itself, parentheses, a wrapper / pass-through call with such an
+// argument
+func (l *loader) carriesIn(info *types.Info, e ast.Expr, hold []types.Object, depth int) bool {
+	switch x := e.(type) {
+	case *ast.Ident:
+		o := info.Uses[x]
+		for _, h := range hold {
+			if o != nil && o == h {
+				return true
+			}
+		}
+	case *ast.ParenExpr:
+		return l.carriesIn(info, x.X, hold, depth)
+	case *ast.CallExpr:
+		if depth > 3 {
+			return false
+		}
+		for _, arg := range l.carrierArgs(info, x) {
+			if l.carriesIn(info, arg, hold, depth+1) {
+				return true
+			}
+		}
+	}
+	return false
+}
+
+func (a *analyzer) carries(e ast.Expr, hold []types.Object) bool {
+	return a.l.carriesIn(a.info, e, hold, 0)
+}
+
+// The declaration of the PRIVATE HELPER a call invokes, if the call is to be inlined: an unexported function or concrete
+// method of the module whose declaration is known, which is not a listed function, is not being analysed already, and
+// stands at most three levels below a listed function.
+func (a *analyzer) helperOf(c *ast.CallExpr) (*helperDecl, *types.Func) {
+	f := a.cn.calledFunc(c)
+	if f == nil || f.Exported() || !a.l.inModule(f.Pkg()) {
+		return nil, nil
+	}
+	f = f.Origin()
+	if a.l.listed[f] || a.depth >= 3 {
+		return nil, nil
+	}
+	for _, s := range a.stack {
+		if s == f {
+			return nil, nil
+		}
+	}
+	h := a.l.lookup(f)
+	if h == nil {
+		return nil, nil
+	}
+	return h, f
 }
 
 // 1: last result is `error`; 0: it is not; -1: the type of the call is unresolved
@@ -316,21 +438,8 @@ func (a *analyzer) returnsError(c *ast.CallExpr) int {
 	return 0
 }
 
-// a package-level variable whose type implements error, e.g. io.EOF, Done, pq.Done
-func (a *analyzer) sentinel(e ast.Expr) string {
-	q, obj := a.qualified(e)
-	if q == "" || obj == nil {
-		return ""
-	}
-	v, ok := obj.(*types.Var)
-	if !ok || v.Pkg() == nil {
-		return ""
-	}
-	if !types.Implements(v.Type(), errorType.Underlying().(*types.Interface)) {
-		return ""
-	}
-	return q
-}
+// a package-level variable whose type implements error, by its canonical name: io.EOF, sstables.Done, pq.Done
+func (a *analyzer) sentinel(e ast.Expr) string { return a.cn.sentinelName(e) }
 
 func (a *analyzer) objOf(e ast.Expr) types.Object {
 	id, ok := e.(*ast.Ident)
@@ -344,7 +453,7 @@ func (a *analyzer) objOf(e ast.Expr) types.Object {
 }
 
 func (a *analyzer) enclosingFunc(n ast.Node) ast.Node {
-	for p := a.parents[n]; p != nil; p = a.parents[p] {
+	for p := a.l.parents[n]; p != nil; p = a.l.parents[p] {
 		switch p.(type) {
 		case *ast.FuncLit, *ast.FuncDecl:
 			return p
@@ -393,10 +502,10 @@ func (a *analyzer) hasErrorResult(fn ast.Node) bool {
 // the function whose `defer` statement runs this literal (nil if the literal is not the callee of a defer)
 func (a *analyzer) deferredIn(lit *ast.FuncLit) ast.Node {
 	var n ast.Node = lit
-	p := a.parents[n]
+	p := a.l.parents[n]
 	for {
 		if pe, ok := p.(*ast.ParenExpr); ok {
-			n, p = pe, a.parents[pe]
+			n, p = pe, a.l.parents[pe]
 			continue
 		}
 		break
@@ -405,16 +514,21 @@ func (a *analyzer) deferredIn(lit *ast.FuncLit) ast.Node {
 	if !ok || c.Fun != n {
 		return nil
 	}
-	d, ok := a.parents[c].(*ast.DeferStmt)
+	d, ok := a.l.parents[c].(*ast.DeferStmt)
 	if !ok || d.Call != c {
 		return nil
 	}
 	return a.enclosingFunc(d)
 }
 
+// flags: the call stands in a loop body / a defer statement / a conditional branch.  "Conditional" is read up to the
+// guard-clause respelling: `if c { X }` and `if !c { continue }; X` (in a loop), and — inside an INLINED helper, whose early
+// `return` merely skips the rest of the helper — `if !c { return nil }; X`, are the same fact: a statement that follows an
+// `if` one of whose branches always jumps away is conditional too, unless the condition tests an error value (after `if err
+// != nil { return err }` the main path goes on; that is the ordinary way to be at the top level).
 func (a *analyzer) flags(c ast.Node) (inLoop, inDefer, inBranch bool) {
 	var child ast.Node = c
-	for p := a.parents[c]; p != nil && child != ast.Node(a.fd); child, p = p, a.parents[p] {
+	for p := a.l.parents[c]; p != nil && child != ast.Node(a.fd); child, p = p, a.l.parents[p] {
 		switch x := p.(type) {
 		case *ast.ForStmt:
 			if child != ast.Node(x.Init) {
@@ -432,17 +546,120 @@ func (a *analyzer) flags(c ast.Node) (inLoop, inDefer, inBranch bool) {
 			}
 		case *ast.CaseClause:
 			inBranch = true
+			if a.guardedIn(x.Body, child) {
+				inBranch = true
+			}
 		case *ast.CommClause:
 			inBranch = true
+		case *ast.BlockStmt:
+			if a.guardedIn(x.List, child) {
+				inBranch = true
+			}
 		}
 	}
 	return
 }
 
+// an earlier sibling of `child` in the statement list is a guard clause: an `if` with a branch that always jumps away
+// (`continue` / `break` / `goto`; `return` only inside an inlined helper) on a condition that does not test an error value
+func (a *analyzer) guardedIn(list []ast.Stmt, child ast.Node) bool {
+	for _, s := range list {
+		if ast.Node(s) == child {
+			return false
+		}
+		for is, _ := s.(*ast.IfStmt); is != nil; {
+			if a.jumpsAway(is.Body) && !a.testsError(is.Cond) {
+				return true
+			}
+			switch e := is.Else.(type) {
+			case *ast.IfStmt:
+				is = e
+				continue
+			case *ast.BlockStmt:
+				if a.jumpsAway(e) && !a.testsError(is.Cond) {
+					return true
+				}
+			}
+			break
+		}
+	}
+	return false
+}
+
+func (a *analyzer) jumpsAway(b *ast.BlockStmt) bool {
+	if b == nil || len(b.List) == 0 {
+		return false
+	}
+	switch x := b.List[len(b.List)-1].(type) {
+	case *ast.BranchStmt:
+		return x.Tok == token.CONTINUE || x.Tok == token.BREAK || x.Tok == token.GOTO
+	case *ast.ReturnStmt:
+		return a.depth > 0
+	}
+	return false
+}
+
+// the condition looks at an error value (`err != nil`, `errors.Is(err, io.EOF)`, `err == Done && last` …)
+func (a *analyzer) testsError(cond ast.Expr) bool {
+	found := false
+	ast.Inspect(cond, func(n ast.Node) bool {
+		if e, ok := n.(ast.Expr); ok {
+			if tv, ok := a.info.Types[e]; ok && tv.Type != nil && tv.IsValue() && types.Identical(tv.Type, errorType) {
+				found = true
+			}
+		}
+		return !found
+	})
+	return found
+}
+
+// worse-first order of the dispositions (the dropped ones rank between swallowed and translated)
+var dispRank = map[string]int{"unknown": 7, "overwritten": 6, "swallowed": 5, "discarded": 4, "deferredDiscarded": 4, "translated": 3,
+	"checkedThenReturn": 2, "returned": 1}
+
+func union(a, b []string) []string {
+	m := map[string]bool{}
+	for _, x := range a {
+		m[x] = true
+	}
+	for _, x := range b {
+		m[x] = true
+	}
+	if len(m) == 0 {
+		return nil
+	}
+	return sortedKeys(m)
+}
+
+// compose: what becomes of the error of a row INSIDE an inlined helper, given what the caller does with the helper's result
+func compose(inner, site row) row {
+	r := inner
+	switch inner.disp {
+	case "returned", "checkedThenReturn":
+		// the value reaches the helper's caller: the caller decides
+		r.disp, r.why = site.disp, site.why
+		if site.disp == "returned" && inner.disp == "checkedThenReturn" {
+			r.disp = "checkedThenReturn"
+		}
+		r.sentinels = union(inner.sentinels, site.sentinels)
+	case "translated":
+		// the sentinel paths were turned into something else in the helper; the other paths reach the caller
+		if dispRank[site.disp] > dispRank["translated"] {
+			r.disp, r.why = site.disp, site.why
+		}
+		r.sentinels = union(inner.sentinels, site.sentinels)
+	}
+	return r
+}
+
 func (a *analyzer) analyze(name string) []row {
 	var calls []*ast.CallExpr
 	ast.Inspect(a.fd.Body, func(n ast.Node) bool {
-		if c, ok := n.(*ast.CallExpr); ok && !a.isWrapper(c) && a.returnsError(c) != 0 {
+		c, ok := n.(*ast.CallExpr)
+		if !ok || a.isWrapper(c) {
+			return true
+		}
+		if h, _ := a.helperOf(c); h != nil || a.returnsError(c) != 0 {
 			calls = append(calls, c)
 		}
 		return true
@@ -455,17 +672,35 @@ func (a *analyzer) analyze(name string) []row {
 	})
 	var rows []row
 	for _, c := range calls {
-		r := row{fn: name, callee: calleeName(c.Fun), method: methodName(c.Fun)}
-		if _, ok := c.Fun.(*ast.FuncLit); ok {
-			r.method = ""
-		}
+		r := row{fn: name, callee: a.cn.callee(c), method: a.cn.lastName(c)}
 		r.inLoop, r.inDefer, r.inBranch = a.flags(c)
-		if a.returnsError(c) < 0 {
+		re := a.returnsError(c)
+		if re < 0 {
 			r.disp, r.why = "unknown", "the type of the call is unresolved"
-		} else {
+		} else if re > 0 {
 			a.classify(c, &r)
 		}
-		rows = append(rows, r)
+		h, f := a.helperOf(c)
+		if h == nil {
+			rows = append(rows, r)
+			continue
+		}
+		// a private helper: its rows stand where the call stands, composed with what happens to the helper's result here
+		sub := a.l.analyzer(h.info, h.fd, a.depth+1, append(append([]*types.Func{}, a.stack...), f))
+		inner := sub.analyze(name)
+		if re != 0 && sub.makesOwnError() {
+			inner = append(inner, row{fn: name, callee: ownErrorCallee, disp: "returned", pseudo: true})
+		}
+		for _, in := range inner {
+			if re != 0 {
+				in = compose(in, r)
+			}
+			if in.pseudo && (in.disp == "returned" || in.disp == "checkedThenReturn") {
+				continue
+			}
+			in.inLoop, in.inDefer, in.inBranch = in.inLoop || r.inLoop, in.inDefer || r.inDefer, in.inBranch || r.inBranch
+			rows = append(rows, in)
+		}
 	}
 	// deferred literals must not drop what a named result holds
 	ast.Inspect(a.fd.Body, func(n ast.Node) bool {
@@ -493,7 +728,7 @@ func (a *analyzer) analyze(name string) []row {
 					keeps = a.carries(as.Rhs[i], []types.Object{o})
 				}
 				if !keeps {
-					r := row{fn: name, callee: "assignment " + exprString(as), disp: "unknown",
+					r := row{fn: name, callee: namedResultAssignment, disp: "unknown",
 						why: "a deferred assignment to the named result drops the value it held"}
 					r.inLoop, r.inDefer, r.inBranch = a.flags(as)
 					rows = append(rows, r)
@@ -509,48 +744,91 @@ func (a *analyzer) analyze(name string) []row {
 	return rows
 }
 
-// expression whose value is (a wrap of) a holder: a holder itself, parentheses, a wrapper call with such an argument
-func (a *analyzer) carries(e ast.Expr, hold []types.Object) bool {
-	switch x := e.(type) {
-	case *ast.Ident:
-		o := a.info.Uses[x]
-		for _, h := range hold {
-			if o != nil && o == h {
-				return true
+// Does the function hand its caller an error that is not the value of one of its rows nor one of its parameters — a
+// `return …, fmt.Errorf("checksum mismatch")`, `return ErrClosed`, `err = &MyErr{…}` into a named result?  (A call of such a
+// helper has no row of its own once the helper is inlined; what the caller does with THESE errors is shown by a pseudo
+// row, and only if the caller fails to report them.)
+func (a *analyzer) makesOwnError() bool {
+	if !a.hasErrorResult(a.fd) {
+		return false
+	}
+	own := func(e ast.Expr) bool {
+		e = ast.Unparen(e)
+		if isNil(e) {
+			return false
+		}
+		if c, ok := e.(*ast.CallExpr); ok && !a.isWrapper(c) {
+			if tv, ok := a.info.Types[c.Fun]; !ok || !tv.IsType() {
+				return false // a row of its own, or a pass-through helper
 			}
 		}
-	case *ast.ParenExpr:
-		return a.carries(x.X, hold)
-	case *ast.CallExpr:
-		if a.isWrapper(x) {
-			for _, arg := range x.Args {
-				if a.carries(arg, hold) {
-					return true
+		local := false // mentions a local error variable: (a wrap of) a tracked value or a parameter
+		ast.Inspect(e, func(n ast.Node) bool {
+			if id, ok := n.(*ast.Ident); ok {
+				if v, ok := a.info.Uses[id].(*types.Var); ok && !isPkgLevel(v) && !v.IsField() && types.Identical(v.Type(), errorType) {
+					local = true
 				}
 			}
-		}
+			if c, ok := n.(*ast.CallExpr); ok && n != ast.Node(e) && a.returnsError(c) != 0 && !a.isWrapper(c) {
+				local = true // wraps the result of a call that is a row
+			}
+			return true
+		})
+		return !local
 	}
-	return false
+	named := a.namedResults(a.fd)
+	found := false
+	var walk func(n ast.Node, inLit bool)
+	walk = func(n ast.Node, inLit bool) {
+		ast.Inspect(n, func(m ast.Node) bool {
+			switch x := m.(type) {
+			case *ast.FuncLit:
+				walk(x.Body, true)
+				return false
+			case *ast.ReturnStmt:
+				if !inLit && len(x.Results) > 0 && own(x.Results[len(x.Results)-1]) {
+					found = true
+				}
+			case *ast.AssignStmt:
+				if len(x.Lhs) == len(x.Rhs) {
+					for i, l := range x.Lhs {
+						if o := a.objOf(l); o != nil && named[o] && types.Identical(o.Type(), errorType) && own(x.Rhs[i]) {
+							found = true
+						}
+					}
+				}
+			}
+			return true
+		})
+	}
+	walk(a.fd.Body, false)
+	return found
 }
 
 func (a *analyzer) classify(c *ast.CallExpr, r *row) {
 	// climb through parentheses and wrapper calls
 	var top ast.Expr = c
 	for {
-		p := a.parents[top]
+		p := a.l.parents[top]
 		if pe, ok := p.(*ast.ParenExpr); ok {
 			top = pe
 			continue
 		}
-		if pc, ok := p.(*ast.CallExpr); ok && a.isWrapper(pc) && pc.Fun != top {
-			top = pc
-			continue
+		if pc, ok := p.(*ast.CallExpr); ok && pc.Fun != top {
+			through := false
+			for _, arg := range a.l.carrierArgs(a.info, pc) {
+				through = through || arg == top
+			}
+			if through {
+				top = pc
+				continue
+			}
 		}
 		break
 	}
 	unknown := func(why string) { r.disp, r.why = "unknown", why }
 	fn := a.enclosingFunc(c)
-	switch p := a.parents[top].(type) {
+	switch p := a.l.parents[top].(type) {
 	case *ast.ExprStmt:
 		r.disp = "discarded"
 	case *ast.DeferStmt:
@@ -587,8 +865,8 @@ func (a *analyzer) classify(c *ast.CallExpr, r *row) {
 			lhs = p.Names[len(p.Names)-1]
 		}
 		var def ast.Node = p
-		if gd, ok := a.parents[p].(*ast.GenDecl); ok {
-			if ds, ok := a.parents[gd].(*ast.DeclStmt); ok {
+		if gd, ok := a.l.parents[p].(*ast.GenDecl); ok {
+			if ds, ok := a.l.parents[gd].(*ast.DeclStmt); ok {
 				def = ds
 			}
 		}
@@ -602,10 +880,10 @@ func (a *analyzer) classify(c *ast.CallExpr, r *row) {
 // passed as an argument to a call that returns an error (e.g. filepath.Walk, which hands the callback's error on)
 func (a *analyzer) literalResultObserved(lit *ast.FuncLit) bool {
 	var n ast.Node = lit
-	p := a.parents[n]
+	p := a.l.parents[n]
 	for {
 		if pe, ok := p.(*ast.ParenExpr); ok {
-			n, p = pe, a.parents[pe]
+			n, p = pe, a.l.parents[pe]
 			continue
 		}
 		break
@@ -615,8 +893,8 @@ func (a *analyzer) literalResultObserved(lit *ast.FuncLit) bool {
 		return false
 	}
 	if c.Fun == n {
-		_, deferred := a.parents[c].(*ast.DeferStmt)
-		_, spawned := a.parents[c].(*ast.GoStmt)
+		_, deferred := a.l.parents[c].(*ast.DeferStmt)
+		_, spawned := a.l.parents[c].(*ast.GoStmt)
 		return !deferred && !spawned
 	}
 	return a.returnsError(c) == 1
@@ -633,11 +911,11 @@ func (a *analyzer) flowFrom(def ast.Node, lhs ast.Expr, fn ast.Node, r *row) {
 	}
 	obj := a.objOf(lhs)
 	if obj == nil {
-		r.disp, r.why = "unknown", "the value is stored in "+exprString(lhs)
+		r.disp, r.why = "unknown", "the value is stored in "+a.cn.expr(lhs)
 		return
 	}
 	if _, isVar := obj.(*types.Var); !isVar || obj.Parent() == nil || obj.Parent() == obj.Pkg().Scope() {
-		r.disp, r.why = "unknown", "the value is stored in "+exprString(lhs)
+		r.disp, r.why = "unknown", "the value is stored in "+a.cn.expr(lhs)
 		return
 	}
 	_, body := funcParts(fn)
@@ -828,7 +1106,7 @@ func (e *engine) funcEnd(st state) {
 	}
 	for _, h := range st.hold {
 		if h.Parent() != nil && !e.declaredInside(h) {
-			e.unknown("the value leaves the function literal in the captured variable " + h.Name())
+			e.unknown("the value leaves the function literal in a captured variable")
 			return
 		}
 	}
@@ -860,7 +1138,7 @@ func (e *engine) ret(st state, s *ast.ReturnStmt) {
 	switch {
 	case e.a.carries(last, st.hold):
 		e.handedOn(st)
-	case isNil(last):
+	case isNil(last) || e.a.l.alwaysNil(e.a.info, last):
 		e.lost(st)
 	default:
 		e.otherError(st)
@@ -877,7 +1155,7 @@ func (e *engine) funcEndNoError(st state) {
 	}
 	for _, h := range st.hold {
 		if !e.declaredInside(h) {
-			e.unknown("the value leaves the function literal in the captured variable " + h.Name())
+			e.unknown("the value leaves the function literal in a captured variable")
 			return
 		}
 	}
@@ -1016,7 +1294,7 @@ func (e *engine) literalClobbers(n ast.Node, st state) {
 					continue
 				}
 				if len(as.Lhs) != len(as.Rhs) || !e.a.carries(as.Rhs[i], st.hold) {
-					e.unknown("a function literal assigns " + o.Name() + " while it holds the value")
+					e.unknown("a function literal assigns a variable while it holds the value")
 				}
 			}
 			return true
@@ -1292,8 +1570,21 @@ func (e *engine) clauses(init, assign ast.Stmt, body *ast.BlockStmt, st state) [
 	return dedupe(e.endScope(out, decl))
 }
 
+// where a condition is read: the types.Info of its package and, inside a one-line helper, its parameters ↦ the arguments of
+// the call (read in the caller's context)
+type rctx struct {
+	info   *types.Info
+	env    map[types.Object]ast.Expr
+	parent *rctx
+	depth  int
+}
+
 // refine: the states in which the condition is true / false
 func (e *engine) refine(c ast.Expr, st state) (ts, fs []state) {
+	return e.refineIn(c, st, &rctx{info: e.a.info})
+}
+
+func (e *engine) refineIn(c ast.Expr, st state, cx *rctx) (ts, fs []state) {
 	if st.pre {
 		return []state{st}, []state{st}
 	}
@@ -1306,21 +1597,23 @@ func (e *engine) refine(c ast.Expr, st state) (ts, fs []state) {
 		}
 		return out
 	}
-	holder := func(x ast.Expr) bool {
-		for {
-			p, ok := x.(*ast.ParenExpr)
-			if !ok {
-				break
-			}
-			x = p.X
-		}
-		id, ok := x.(*ast.Ident)
+	var holderIn func(x ast.Expr, cx *rctx) bool
+	holderIn = func(x ast.Expr, cx *rctx) bool {
+		id, ok := ast.Unparen(x).(*ast.Ident)
 		if !ok {
 			return false
 		}
-		o := e.a.info.Uses[id]
-		return o != nil && st.holds(o)
+		o := cx.info.Uses[id]
+		if o == nil {
+			return false
+		}
+		if arg, ok := cx.env[o]; ok && cx.parent != nil {
+			return holderIn(arg, cx.parent)
+		}
+		return st.holds(o)
 	}
+	holder := func(x ast.Expr) bool { return holderIn(x, cx) }
+	sentinel := func(x ast.Expr) string { return e.a.l.lite(cx.info).sentinelName(x) }
 	isSent := func(s string) (state, state) {
 		t := state{hold: st.hold}
 		if st.kOther {
@@ -1342,28 +1635,28 @@ func (e *engine) refine(c ast.Expr, st state) (ts, fs []state) {
 	}
 	switch x := c.(type) {
 	case *ast.ParenExpr:
-		return e.refine(x.X, st)
+		return e.refineIn(x.X, st, cx)
 	case *ast.UnaryExpr:
 		if x.Op == token.NOT {
-			ts, fs = e.refine(x.X, st)
+			ts, fs = e.refineIn(x.X, st, cx)
 			return fs, ts
 		}
 	case *ast.BinaryExpr:
 		switch x.Op {
 		case token.LAND:
-			at, af := e.refine(x.X, st)
+			at, af := e.refineIn(x.X, st, cx)
 			fs = append(fs, af...)
 			for _, a := range at {
-				bt, bf := e.refine(x.Y, a)
+				bt, bf := e.refineIn(x.Y, a, cx)
 				ts = append(ts, bt...)
 				fs = append(fs, bf...)
 			}
 			return keep(ts), keep(fs)
 		case token.LOR:
-			at, af := e.refine(x.X, st)
+			at, af := e.refineIn(x.X, st, cx)
 			ts = append(ts, at...)
 			for _, a := range af {
-				bt, bf := e.refine(x.Y, a)
+				bt, bf := e.refineIn(x.Y, a, cx)
 				ts = append(ts, bt...)
 				fs = append(fs, bf...)
 			}
@@ -1383,7 +1676,7 @@ func (e *engine) refine(c ast.Expr, st state) (ts, fs []state) {
 				t = state{hold: st.hold, kNil: st.kNil}
 				f = st
 				f.kNil = false
-			} else if s := e.a.sentinel(other); s != "" {
+			} else if s := sentinel(other); s != "" {
 				t, f = isSent(s)
 			} else {
 				break
@@ -1394,45 +1687,45 @@ func (e *engine) refine(c ast.Expr, st state) (ts, fs []state) {
 			return keep([]state{t}), keep([]state{f})
 		}
 	case *ast.CallExpr:
-		if q, _ := e.a.qualified(x.Fun); q == "errors.Is" && len(x.Args) == 2 && holder(x.Args[0]) {
-			if s := e.a.sentinel(x.Args[1]); s != "" {
-				t, f := isSent(s)
-				return keep([]state{t}), keep([]state{f})
+		fn := e.a.l.lite(cx.info).calledFunc(x)
+		if fn == nil || fn.Pkg() == nil {
+			break
+		}
+		if fn.Pkg().Path() == "errors" && fn.Name() == "Is" && len(x.Args) == 2 {
+			if holder(x.Args[0]) {
+				if s := sentinel(x.Args[1]); s != "" {
+					t, f := isSent(s)
+					return keep([]state{t}), keep([]state{f})
+				}
+			}
+			break
+		}
+		// a helper of the module whose body is a single `return <expr>`: read the expression with the arguments in place of
+		// the parameters (such a helper may use another one; no deeper): `func isEOF(err error) bool { return errors.Is(err, io.EOF) }`
+		if cx.depth >= 2 || !e.a.l.inModule(fn.Pkg()) {
+			break
+		}
+		h := e.a.l.lookup(fn)
+		if h == nil || len(h.fd.Body.List) != 1 || isVariadic(h.fd) {
+			break
+		}
+		rs, ok := h.fd.Body.List[0].(*ast.ReturnStmt)
+		params := paramObjs(h)
+		if !ok || len(rs.Results) != 1 || len(params) != len(x.Args) {
+			break
+		}
+		env := map[types.Object]ast.Expr{}
+		for i, p := range params {
+			if p != nil {
+				env[p] = x.Args[i]
 			}
 		}
+		return e.refineIn(rs.Results[0], st, &rctx{info: h.info, env: env, parent: cx, depth: cx.depth + 1})
 	}
 	return []state{st}, []state{st}
 }
 
 // ---------------------------------------------------------------------------------------------------------
-
-func recvName(fd *ast.FuncDecl) string {
-	if fd.Recv == nil || len(fd.Recv.List) == 0 {
-		return ""
-	}
-	t := fd.Recv.List[0].Type
-	for {
-		switch x := t.(type) {
-		case *ast.StarExpr:
-			t = x.X
-			continue
-		case *ast.ParenExpr:
-			t = x.X
-			continue
-		case *ast.IndexExpr:
-			t = x.X
-			continue
-		case *ast.IndexListExpr:
-			t = x.X
-			continue
-		}
-		break
-	}
-	if id, ok := t.(*ast.Ident); ok {
-		return id.Name
-	}
-	return ""
-}
 
 func leanStr(s string) string {
 	s = strings.ReplaceAll(s, "\\", "\\\\")
@@ -1454,20 +1747,6 @@ func writeIfChanged(path, content string) {
 	if err := os.WriteFile(path, []byte(content), 0o644); err != nil {
 		fatal(err)
 	}
-}
-
-func moduleOf(repo string) string {
-	b, err := os.ReadFile(filepath.Join(repo, "go.mod"))
-	if err != nil {
-		fatal(err)
-	}
-	for _, l := range strings.Split(string(b), "\n") {
-		if f := strings.Fields(l); len(f) == 2 && f[0] == "module" {
-			return f[1]
-		}
-	}
-	fatal("no module line in go.mod")
-	return ""
 }
 
 func main() {
@@ -1504,60 +1783,61 @@ func main() {
 	if err := os.MkdirAll(out, 0o755); err != nil {
 		fatal(err)
 	}
-	build.Default.Dir = repo              // third-party imports are resolved by `go list` run inside the module …
-	os.Setenv("GOFLAGS", "-mod=readonly") // … which must never rewrite <repo>/go.mod or go.sum, nor use the network
-	os.Setenv("GOPROXY", "off")
-	l := &loader{repo: repo, root: root, mod: moduleOf(repo), pkgs: map[string]*types.Package{}, infos: map[string]*types.Info{},
-		files: map[string]map[string]*ast.File{}}
-	l.src = importer.ForCompiler(fset, "source", nil).(types.ImporterFrom)
+	l := newLoader(repo, root)
 
-	var fns []fnOut
+	// pass 1: find the listed functions (in any file of their package; `file` says where they were when the list was
+	// written) — they are the anchors: never inlined, and a call of one from another listed function stays a row
+	type found struct {
+		disp, file string
+		path       string
+		fd         *ast.FuncDecl
+		fn         *types.Func
+	}
+	var all []found
 	var missing []string
 	for _, t := range targets {
 		path := l.mod + "/" + filepath.ToSlash(filepath.Dir(t.file))
 		if _, ok := l.infos[path]; !ok {
 			l.check(path)
 		}
-		f := l.files[path][t.file]
-		decls := map[string]*ast.FuncDecl{}
-		parents := map[ast.Node]ast.Node{}
-		if f != nil {
-			var stack []ast.Node
-			ast.Inspect(f, func(n ast.Node) bool {
-				if n == nil {
-					stack = stack[:len(stack)-1]
-					return true
-				}
-				if len(stack) > 0 {
-					parents[n] = stack[len(stack)-1]
-				}
-				stack = append(stack, n)
-				return true
-			})
-			for _, d := range f.Decls {
-				if fd, ok := d.(*ast.FuncDecl); ok && fd.Body != nil {
-					n := fd.Name.Name
-					if r := recvName(fd); r != "" {
-						n = r + "." + n
-					}
-					decls[n] = fd
-				}
-			}
-		}
 		for _, n := range t.fns {
 			disp := n
 			if !strings.Contains(n, ".") || t.qual {
 				disp = t.pkg + "." + n
 			}
-			fd := decls[n]
-			if fd == nil {
+			// by package, receiver type and name — a PRIVATE anchor whose name is gone by its role (canon.go, resolveFunc)
+			fn, _ := resolveFunc(l.mod, l.pkgs[path], n)
+			var h *helperDecl
+			if fn != nil {
+				h = l.lookup(fn)
+			}
+			if h == nil {
 				missing = append(missing, fmt.Sprintf("%s (expected in %s)", disp, t.file))
-				fns = append(fns, fnOut{name: disp, file: t.file})
+				all = append(all, found{disp: disp, file: t.file})
 				continue
 			}
-			a := &analyzer{info: l.infos[path], parents: parents, fd: fd}
-			fns = append(fns, fnOut{name: disp, file: t.file, found: true, rows: a.analyze(disp)})
+			file := t.file
+			for rel, f := range l.files[path] {
+				if f.Pos() <= h.fd.Pos() && h.fd.Pos() < f.End() {
+					file = filepath.ToSlash(rel)
+				}
+			}
+			l.listed[fn.Origin()] = true
+			all = append(all, found{disp: disp, file: file, path: path, fd: h.fd, fn: fn.Origin()})
 		}
+	}
+	for _, r := range l.renamed {
+		fmt.Fprintln(os.Stderr, "errfacts: note: private function found by its role (receiver + signature):", r)
+	}
+	// pass 2: the rows
+	var fns []fnOut
+	for _, f := range all {
+		if f.fd == nil {
+			fns = append(fns, fnOut{name: f.disp, file: f.file})
+			continue
+		}
+		a := l.analyzer(l.infos[f.path], f.fd, 0, []*types.Func{f.fn})
+		fns = append(fns, fnOut{name: f.disp, file: f.file, found: true, rows: a.analyze(f.disp)})
 	}
 	if len(l.problems) > 0 {
 		msg := "the source does not type-check (or an import could not be resolved offline):\n  " + strings.Join(l.problems, "\n  ")
@@ -1596,7 +1876,7 @@ func render(fns []fnOut) string {
 	sb.WriteString("namespace SST.Generated.ErrFlow\n\n")
 	sb.WriteString("/-- what happens to the error value of a call on every path of the enclosing function -/\n")
 	sb.WriteString("inductive Disp where\n  | returned\n  | checkedThenReturn\n  | translated\n  | overwritten\n  | swallowed\n  | discarded\n  | deferredDiscarded\n  | unknown (why : String)\n  deriving DecidableEq, Repr\n\n")
-	sb.WriteString("/-- `fn`: listed function; `idx`: position among its rows (source order); `callee`: printed function expression;\n`method`: its last name; `sentinels`: the package-level error values the result is compared with and turned into a\ndifferent outcome; `inLoop` / `inDefer` / `inBranch`: the call stands in a loop body / a defer statement / a conditional branch -/\n")
+	sb.WriteString("/-- `fn`: listed function; `idx`: position among its rows (source order); `callee`: go/types identity of what is called (receiver by the type of its root variable; private helpers inlined);\n`method`: its last name; `sentinels`: the package-level error values the result is compared with and turned into a\ndifferent outcome; `inLoop` / `inDefer` / `inBranch`: the call stands in a loop body / a defer statement / a conditional branch -/\n")
 	sb.WriteString("structure Row where\n  fn : String\n  idx : Nat\n  callee : String\n  method : String\n  disp : Disp\n  sentinels : List String\n  inLoop : Bool\n  inDefer : Bool\n  inBranch : Bool\n  deriving DecidableEq, Repr\n\n")
 	sb.WriteString("structure Fn where\n  name : String\n  file : String\n  found : Bool\n  deriving DecidableEq, Repr\n\n")
 	var ws []string
